@@ -519,47 +519,51 @@ func stripGone(nodes []nodeCfg) []nodeCfg {
 	return out
 }
 
-// histFails runs the history up to n times; a run fails when some request shows oracle kind k. Returns the history
-// truncated at that request, the finding, and how many runs failed.
-func (ch *chassis) histFails(h histCfg, k string, n int, stopAtFirst bool, cl *classes) (histCfg, finding, int) {
+// histFails runs the history up to n times; a run fails when the LAST request shows oracle kind k (an earlier
+// request failing the same oracle is a raw failure of its own, filed when the enumeration gets there; it must not
+// mask this one). Returns the finding and how many runs failed.
+func (ch *chassis) histFails(h histCfg, k string, n int, stopAtFirst bool, cl *classes) (finding, int) {
 	var last finding
-	var cut histCfg
 	bad := 0
 	for i := 0; i < n; i++ {
 		atomic.AddInt64(&cl.minRuns, 1)
-		res, _ := ch.runHist(h)
-		for _, r := range res {
-			if f, is := hasKind(r.Findings, k); is {
-				last, cut = f, histCfg{Nodes: h.Nodes, Steps: h.Steps[:r.Step+1]}
-				bad++
+		res, ok := ch.runHist(h)
+		if !ok || len(res) == 0 || res[len(res)-1].Step != len(h.Steps)-1 {
+			continue
+		}
+		if f, is := hasKind(res[len(res)-1].Findings, k); is {
+			last = f
+			bad++
+			if stopAtFirst {
 				break
 			}
 		}
-		if bad > 0 && stopAtFirst {
-			break
-		}
 	}
-	return cut, last, bad
+	return last, bad
 }
 
 const histTries = 4
 
 // minimiseHist greedily shrinks a failing history (drop steps, drop peers, reset initial attributes) while the same
-// oracle still fails at some request; the third result tells whether the minimal history fails on every execution.
+// oracle still fails at the last request; the third result tells whether the minimal history fails on every execution.
 func (ch *chassis) minimiseHist(h histCfg, k string, cl *classes) (histCfg, finding, bool) {
 	cur := h.canon()
-	c0, f, n := ch.histFails(cur, k, histTries, true, cl)
+	f, n := ch.histFails(cur, k, histTries, true, cl)
 	if n == 0 {
 		return cur, f, false
 	}
-	cur = c0.canon()
 	try := func(cand histCfg) bool {
 		cand = cand.canon()
 		if !cand.valid() {
 			return false
 		}
-		if c, g, n := ch.histFails(cand, k, histTries, true, cl); n > 0 {
-			cur, f = c.canon(), g
+		// stay with failures that need the history: a candidate whose last request fails on a fresh cluster in its
+		// final state as well has slipped into another (single-request) class
+		if len(cand.Steps) > 1 && cl.failsSingle(ch, cand, k) {
+			return false
+		}
+		if g, n := ch.histFails(cand, k, histTries, true, cl); n > 0 {
+			cur, f = cand, g
 			return true
 		}
 		return false
@@ -635,7 +639,7 @@ func (ch *chassis) minimiseHist(h histCfg, k string, cl *classes) (histCfg, find
 			}
 		}
 	}
-	_, g, bad := ch.histFails(cur, k, 6, false, cl)
+	g, bad := ch.histFails(cur, k, 6, false, cl)
 	if bad == 0 {
 		return cur, f, false
 	}
@@ -713,6 +717,28 @@ func embeds(state []nodeCfg, hs []step, m histCfg) bool {
 	return assign(1)
 }
 
+// failsSingle: does the last request of h show oracle kind k also without any history, i.e. on a fresh cluster wired in
+// h's final state (cached per final state)?
+func (cl *classes) failsSingle(ch *chassis, h histCfg, k string) bool {
+	final := h.stateAfter()
+	if final == nil {
+		return false
+	}
+	single := caseCfg{Nodes: stripGone(final), Kind: h.Steps[len(h.Steps)-1].Kind, Hdr: hAbsent}
+	skey := k + "#" + single.key()
+	cl.mu.Lock()
+	fails, known := cl.singleFails[skey]
+	cl.mu.Unlock()
+	if !known {
+		_, n := ch.failsAny(single, k, minimiseTries, true, cl)
+		fails = n > 0
+		cl.mu.Lock()
+		cl.singleFails[skey] = fails
+		cl.mu.Unlock()
+	}
+	return fails
+}
+
 // reportHist files one raw failure of a history (h = the history up to and including the failing request).
 func (cl *classes) reportHist(ch *chassis, h histCfg, f finding) {
 	final := h.stateAfter()
@@ -720,20 +746,8 @@ func (cl *classes) reportHist(ch *chassis, h histCfg, f finding) {
 		return
 	}
 	// 1. not a matter of history at all: the last request fails on a fresh cluster in the final state as well
-	single := caseCfg{Nodes: stripGone(final), Kind: h.Steps[len(h.Steps)-1].Kind, Hdr: hAbsent}
-	skey := f.Kind + "#" + single.key()
-	cl.mu.Lock()
-	fails, known := cl.singleFails[skey]
-	cl.mu.Unlock()
-	if !known {
-		_, n := ch.failsAny(single, f.Kind, minimiseTries, true, cl)
-		fails = n > 0
-		cl.mu.Lock()
-		cl.singleFails[skey] = fails
-		cl.mu.Unlock()
-	}
-	if fails {
-		cl.report(ch, single, f)
+	if cl.failsSingle(ch, h, f.Kind) {
+		cl.report(ch, caseCfg{Nodes: stripGone(final), Kind: h.Steps[len(h.Steps)-1].Kind, Hdr: hAbsent}, f)
 		return
 	}
 	// 2. a class already known
